@@ -45,6 +45,9 @@ def oracle_trace(ctx, case, trace, followup=False, static=None):
     n_cap = None if kind == "stationary" else case["crews"] * case["_cap_used"]
     for k, rec in enumerate(trace):
         if rec["crash"]:
+            if rec["crash"] != "key_error":  # KeyError over New Year is C06's finding F12
+                ctx.violate("C07:crash:" + rec["crash"], f"{rec['crash']} raised by the schedule on {rec['date']}",
+                            {"case": strip(case), "day": k})
             break
         inp = {"case": strip(case), "day": k}
         plan = rec["plan"]
@@ -162,8 +165,9 @@ def strip(case):
 TIMES = [  # (hours, travel, survey times cycled over the sites)
     (1, 0, [30]), (1, 0, [60]), (1, 0, [90]), (1, 15, [30]), (1, 15, [45, 20]), (1, 30, [30]),
     (2, 15, [120, 30]), (2, 0, [150, 60]), (1, 30, [10]), (2, 30, [90]), (2, 45, [60, 200]),
+    (1, 20, [20]), (1, 10, [100, 40]), (2, 0, [240]), (2, 30, [60, 61]), (1, 0, [59, 1, 60]),
 ]
-FREQS = [(1, [1]), (12, [1, 2]), (24, [1, 2]), (3, [1])]
+FREQS = [(1, [1]), (12, [1, 2]), (24, [1, 2]), (3, [1]), (12, [2])]
 
 
 def exhaustive_cases(max_days=5):
@@ -307,7 +311,7 @@ def run_cases(ctx, cases, followup_fns=None):
 def run(ctx):
     ctx.rule = ("histories = (schedule kind, method class, sites, crews, capacity, workday, travel and survey "
                 "times, deployment months, survey frequency, per-day weather mask, days); exhaustive core: "
-                "sites<=4 x crews<=2 x capacity<=2 x 11 time combinations x 4 frequency/month settings x all 32 "
+                "sites<=4 x crews<=2 x capacity<=2 x 16 time combinations x 5 frequency/month settings x all 32 "
                 "weather masks of 5 days (subsampled by seed in quick) + random routine / stationary / follow-up "
                 "runs (follow-up with first flags, re-detections, drops); non-trivial = some taken request was "
                 "not completed the same day; distinct by (kind, class, sizes, times, outcome/class patterns)")
@@ -317,17 +321,17 @@ def run(ctx):
     ctx.extra["exhaustive_core_size"] = len(cases)
     if ctx.quick:
         rng.shuffle(cases)
-        cases = cases[:ctx.pick(2200, None)]
+        cases = cases[:ctx.pick(7000, None)]
     else:
         ctx.exhaustive = True
     fns = {}
-    for _ in range(ctx.pick(500, 12000)):
+    for _ in range(ctx.pick(1500, 12000)):
         cases.append(random_routine(rng))
-    for _ in range(ctx.pick(60, 1500)):
+    for _ in range(ctx.pick(120, 1500)):
         cases.append(random_routine(rng, big=True))
-    for _ in range(ctx.pick(150, 3000)):
+    for _ in range(ctx.pick(400, 3000)):
         cases.append(random_stationary(rng))
-    for k in range(ctx.pick(600, 14000)):
+    for k in range(ctx.pick(2500, 14000)):
         c, fn = random_followup(rng, big=(k % 10 == 0))
         fns[id(c)] = fn
         cases.append(c)
@@ -367,7 +371,7 @@ def replay(ctx, data):
         print("replay: broken obligation / correspondence:", data.get("broken_obligations"),
               data.get("correspondence_disagreements"))
         return 1
-    if inp.get("wholerun"):
+    if inp.get("wholerun") or (inp.get("case") or {}).get("wholerun"):
         from harness.props import _sched_wholerun as W
 
         return W.replay_c07(ctx, inp)
